@@ -1480,7 +1480,7 @@ class Runner:
         if k == "dead":
             cands = [n for n in pools["names"] if n not in live]
             return member_href(coll, cands[i % len(cands)] if cands else "never-%d.ics" % i)
-        if k == "never" or (k in ("live", "literal", "params-suffix", "overencoded", "absolute", "lookalike", "noprefix") and not live):
+        if k == "never" or (k in ("live", "literal", "params-suffix", "overencoded", "absolute", "lookalike", "noprefix", "trailing-slash", "dot-segment", "double-slash", "dotdot") and not live):
             return member_href(coll, "never-%d.ics" % i)
         if k == "literal" and live:
             # minimal encoding: sub-delimiters (; , = + & @ ! $ ' ( ) * :) stay literal, as RFC 3986 allows in a path segment
@@ -1490,6 +1490,10 @@ class Runner:
             # '<existing name>;1' is a different, non-existent resource
             n = live[i % len(live)]
             return self.world.url(coll + "/" + dav.quote_name(n)) + draw_suffix(i)
+        if k in ("trailing-slash", "dot-segment", "double-slash", "dotdot") and live:
+            # other spellings of a live member's path (they normalise to it): each is a distinct requested href
+            n = dav.quote_name(live[i % len(live)])
+            return self.world.url({"trailing-slash": f"{coll}/{n}/", "dot-segment": f"{coll}/./{n}", "double-slash": f"{coll}//{n}", "dotdot": f"{coll}/x/../{n}"}[k])
         if k == "overencoded":
             n = live[i % len(live)]
             return self.world.url(coll + "/" + "".join("%%%02X" % b for b in n.encode("utf-8")))
